@@ -16,6 +16,7 @@ import (
 	"path/filepath"
 	"strings"
 	"sync"
+	"time"
 
 	"github.com/opencontainers/go-digest"
 	ocispec "github.com/opencontainers/image-spec/specs-go/v1"
@@ -437,9 +438,74 @@ func runC05(seed int64, tier string, sc *Script) map[string]any {
 		sc.Op(verdict, "v race pushers=%d", n)
 		os.RemoveAll(dir)
 	}
-	sc.Extra["evaluations"] = 2*len(grid) + pushes + races
+	// Part 4 (runtime observation): the file store, one name, a failing push overlapping a
+	// good one.  The failing reader stalls inside its first Read and then hands over junk
+	// together with its error; the good push runs during the stall if nothing stops it.
+	fraces := 15
+	if tier == "thorough" {
+		fraces = 300
+	}
+	sc.Case("race-same-name-file")
+	for i := 0; i < fraces; i++ {
+		dir := filepath.Join(tmp, fmt.Sprintf("frace-%d", i))
+		fsr, err := file.New(dir)
+		if err != nil {
+			panic(err)
+		}
+		good := []byte(fmt.Sprintf("good-content-of-named-file-%d", i))
+		od := ocispec.Descriptor{MediaType: "application/vnd.verif.a", Digest: digest.FromBytes(good), Size: int64(len(good)),
+			Annotations: map[string]string{ocispec.AnnotationTitle: "data.bin"}}
+		st := &stallReader{junk: bytes.Repeat([]byte("X"), len(good)/2), started: make(chan struct{}), release: make(chan struct{})}
+		var badErr, goodErr error
+		badDone, goodDone := make(chan struct{}), make(chan struct{})
+		go func() { defer close(badDone); badErr = fsr.Push(ctx, od, st) }()
+		<-st.started
+		go func() { defer close(goodDone); goodErr = fsr.Push(ctx, od, bytes.NewReader(good)) }()
+		select {
+		case <-goodDone:
+		case <-time.After(20 * time.Millisecond):
+		}
+		close(st.release)
+		<-badDone
+		<-goodDone
+		verdict := "ok"
+		if badErr == nil {
+			verdict = "bad-push-accepted"
+		}
+		plain := ocispec.Descriptor{MediaType: od.MediaType, Digest: od.Digest, Size: od.Size}
+		for _, d := range []ocispec.Descriptor{od, plain} {
+			ex, _ := fsr.Exists(ctx, d)
+			if goodErr == nil && !ex {
+				verdict = "good-push-returned-but-absent"
+			}
+			if ex {
+				if got := rawFetch(ctx, fsr, d); got != "ok:"+fmtBytes(good) {
+					verdict = "visible-content-mismatch"
+				}
+			}
+		}
+		sc.Op(verdict, "v race pushers=2 store=file round=%d", i)
+		fsr.Close()
+		os.RemoveAll(dir)
+	}
+	sc.Extra["evaluations"] = 2*len(grid) + pushes + races + fraces
 	sc.Extra["grid_cases"] = len(grid)
 	sc.Extra["exhaustive_grid"] = true
 	sc.Nontriv += nontrivGrid // grid rows are distinct by construction
 	return nil
+}
+
+// stallReader blocks in its first Read until released, then returns junk and an error.
+type stallReader struct {
+	junk    []byte
+	started chan struct{}
+	release chan struct{}
+	once    sync.Once
+}
+
+func (r *stallReader) Read(p []byte) (int, error) {
+	r.once.Do(func() { close(r.started) })
+	<-r.release
+	n := copy(p, r.junk)
+	return n, errors.New("injected read failure after stall")
 }
